@@ -79,9 +79,24 @@ thread_local! {
 
 pub fn install_panic_hook() {
     std::panic::set_hook(Box::new(|info| {
-        let loc = info.location().map(|l| format!("{}:{}", l.file(), l.line())).unwrap_or_default();
+        let mut loc = info.location().map(|l| format!("{}:{}", l.file(), l.line())).unwrap_or_default();
         let msg = if let Some(s) = info.payload().downcast_ref::<&str>() { s.to_string() }
             else if let Some(s) = info.payload().downcast_ref::<String>() { s.clone() } else { String::new() };
+        if !(loc.starts_with("/repo/src/") || loc.starts_with("src/") || loc.contains("/verif/sim/src/")) {
+            // The panic was raised inside a library (allocator, slice indexing…): attribute it to the
+            // innermost frame that belongs to the code under test or to the harness.
+            let bt = std::backtrace::Backtrace::force_capture().to_string();
+            for line in bt.lines() {
+                let l = line.trim();
+                if let Some(i) = l.find("redis_sim::") {
+                    let f: String = l[i..].chars().take_while(|c| !c.is_whitespace()).collect();
+                    let f = f.split("::h").next().unwrap_or(&f).to_string();
+                    loc = format!("src/<{}>", f);
+                    break;
+                }
+                if l.contains("verif_sim::props::") || l.contains("verif_sim::model::") { break; }
+            }
+        }
         LAST_PANIC.with(|p| *p.borrow_mut() = Some(format!("{} @ {}", msg, loc)));
     }));
 }
@@ -315,6 +330,7 @@ pub fn run_batch(prop: &dyn Property, cfg: &BatchCfg) -> i32 {
             "evaluations": a.evals,
             "distinct_nontrivial": distinct,
             "rule": prop.rule(),
+            "explanation": prop.rule(),
             "samples": a.samples,
             "simulated_runs": a.runs,
             "nontrivial_runs": a.nontrivial_runs,
